@@ -228,8 +228,14 @@ func genC10Loop(t *rapid.T) C05Case {
 	lc := LoopCase{Native: c.Native}
 	n := rapid.IntRange(3, 14).Draw(t, "nops")
 	for k := 0; k < n; k++ {
-		op := C05Op{Kind: rapid.SampledFrom([]string{"app", "app", "step", "step", "settle"}).Draw(t, "kind"), Inst: rapid.IntRange(0, c.N-1).Draw(t, "inst")}
+		op := C05Op{Kind: rapid.SampledFrom([]string{"app", "app", "app", "step", "step", "step", "settle", "settle", "fault"}).Draw(t, "kind"), Inst: rapid.IntRange(0, c.N-1).Draw(t, "inst")}
 		switch op.Kind {
+		case "fault":
+			// the next one or two Store calls of this instance fail (the retry budget is 4): the upload gets through at a retry
+			op.FKind = "store"
+			for j := rapid.IntRange(1, 2).Draw(t, "nfail"); j > 0; j-- {
+				op.Faults = append(op.Faults, fault.Fail)
+			}
 		case "app":
 			for j := 0; j < rapid.IntRange(1, 2).Draw(t, "nch"); j++ {
 				ch := genSChange(t, &lc, 3)
